@@ -765,14 +765,15 @@ self.document_element(node)?
                     let element = self.element(node);
                     if let Some(element) = element {
                         fullname_serializer.push(self.namespace_declarations(node));
-                        let namespace_id = self.namespace_for_name(element.name());
-                        if !fullname_serializer.is_namespace_known(namespace_id) {
-                            namespaces.push(namespace_id);
+                        // a namespace is unresolved if the name cannot be written: names
+                        // in no namespace and in the XML namespace always can, an
+                        // attribute name needs a non-empty prefix
+                        if fullname_serializer.element_prefix(element.name()).is_err() {
+                            namespaces.push(self.namespace_for_name(element.name()));
                         }
                         for name in self.attributes(node).keys() {
-                            let namespace_id = self.namespace_for_name(name);
-                            if !fullname_serializer.is_namespace_known(namespace_id) {
-                                namespaces.push(namespace_id);
+                            if fullname_serializer.attribute_prefix(name).is_err() {
+                                namespaces.push(self.namespace_for_name(name));
                             }
                         }
                     }
